@@ -903,9 +903,11 @@ func chIsClosed(ch <-chan struct{}) bool {
 // q is the internal implementation of queue that writes the ModifyRequest to
 // the channel to be sent.
 func (c *Client) q(m *spb.ModifyRequest) {
-	c.awaiting.RLock()
-	defer c.awaiting.RUnlock()
-
+	// The awaiting lock is deliberately not held here: the operations in m are
+	// already in the pending queue (see handleModifyRequest), so the client cannot
+	// be considered converged, and holding a read lock whilst blocked on a full
+	// channel deadlocks with AwaitConverged - its pending write lock stops the
+	// sender goroutine, which must drain the channel, from taking its read lock.
 	if chIsClosed(c.sendExitCh) {
 		return
 	}
